@@ -157,6 +157,9 @@ pub enum Case {
     Mutated { hub: Hub, inner_only: bool, m1: Mutation, m2: Mutation },
     /// raw bytes (hex), e.g. fuzzer finds kept as regression inputs
     Raw { hex: String },
+    /// a canonical hub envelope around an inner message that was mutated (or replaced by a short blob) *before*
+    /// wrapping: the envelope itself is well-formed, only the nested message is not
+    Nested { hub: Hub, m1: Mutation, m2: Mutation, short: Option<(u8, u64)> },
 }
 
 fn text() -> impl Strategy<Value = Text> {
@@ -367,7 +370,7 @@ impl Property for C10 {
         "C10"
     }
     fn rule(&self) -> &'static str {
-        "proptest: (a) structured hub messages (both wrappers x both inner kinds; ids; addresses/data of length 0,1,20,31,32,33,..300 with pseudo-random, all-zero or all-0xff content; names/symbols/chains from arbitrary Unicode strings, printable ASCII, 31-33 byte strings, and invalid UTF-8; amounts {0,1,2^64,2^127-1,random}; decimals 0..255; optional bytes absent / empty / present): abi_encode must equal the harness's own head/tail ABI encoder byte for byte and decode back to the same message; (b) byte strings: uniformly random (optionally with a valid type tag in word 0) and valid encodings with one or two mutations (bit flip, word replaced by special values incl. 2^127, 2^128, 2^32, 2^63, 2^64-32.., offset/length +-k, truncation, trailing bytes, dirty padding / high bytes): no panic, abi_decode succeeds iff the harness's strict canonical decoder accepts, same message, re-encoding reproduces the input. thorough additionally runs a libFuzzer campaign with the same oracle in-target. non-trivial = structured messages, and byte strings of >= 32 bytes whose first word is a valid type tag (they reach the struct decoder); distinct by Debug hash"
+        "proptest: (a) structured hub messages (both wrappers x both inner kinds; ids; addresses/data of length 0,1,20,31,32,33,..300 with pseudo-random, all-zero or all-0xff content; names/symbols/chains from arbitrary Unicode strings, printable ASCII, 31-33 byte strings, and invalid UTF-8; amounts {0,1,2^64,2^127-1,random}; decimals 0..255; optional bytes absent / empty / present): abi_encode must equal the harness's own head/tail ABI encoder byte for byte and decode back to the same message; (b) byte strings: uniformly random (optionally with a valid type tag in word 0) and valid encodings with one or two mutations (bit flip, word replaced by special values incl. 2^127, 2^128, 2^32, 2^63, 2^64-32.., offset/length +-k, truncation, trailing bytes, dirty padding / high bytes): no panic, abi_decode succeeds iff the harness's strict canonical decoder accepts, same message, re-encoding reproduces the input. thorough additionally runs a libFuzzer campaign with the same oracle in-target. non-trivial = structured messages, and byte strings of >= 32 bytes whose first word is a valid type tag (they reach the struct decoder); distinct by Debug hash (e) well-formed hub envelopes around a nested message that was mutated before wrapping, or replaced by a blob of 0..69 bytes (shorter than the type word, all-zero, random, with a valid type tag): same oracle as (c) - the envelope alone being canonical must not make a nested non-message acceptable, nor crash the decoder"
     }
     fn assumptions(&self) -> Vec<&'static str> {
         vec!["native 64-bit usize (the dependency's overflow behaviour differs on wasm32)"]
@@ -381,6 +384,8 @@ impl Property for C10 {
             1 => (inner(), any::<bool>()).prop_map(|(inner, empty_as_some)| Case::InnerMsg { inner, empty_as_some }),
             2 => (prop_oneof![0u16..40, 32u16..700], any::<u64>(), proptest::option::of(0u8..6)).prop_map(|(len, seed, t)| Case::Random { len, seed, first_word_tag: t }),
             6 => (hub(), any::<bool>(), mutation(), prop_oneof![2 => Just(Mutation::None), 1 => mutation()]).prop_map(|(hub, inner_only, m1, m2)| Case::Mutated { hub, inner_only, m1, m2 }),
+            3 => (hub(), mutation(), prop_oneof![2 => Just(Mutation::None), 1 => mutation()], prop_oneof![3 => Just(None), 1 => (0u8..70, any::<u64>()).prop_map(Some)])
+                .prop_map(|(hub, m1, m2, short)| Case::Nested { hub, m1, m2, short }),
         ]
         .boxed()
     }
@@ -455,6 +460,29 @@ impl Property for C10 {
                 }
                 b
             }
+            Case::Nested { hub, m1, m2, short } => {
+                let mut inner = inner_to_amsg(&hub.inner).encode();
+                match short {
+                    Some((n, seed)) => {
+                        inner = if seed % 3 == 0 { vec![0u8; *n as usize] } else { seeded_bytes(*seed, *n as usize) };
+                        if *n >= 32 && seed % 2 == 0 {
+                            inner[..32].copy_from_slice(&word_u64(seed % 5));
+                        }
+                        cx.label(if *n < 32 { "nested_inner_shorter_than_a_word" } else { "nested_inner_short_blob" });
+                    }
+                    None => {
+                        apply(&mut inner, m1);
+                        apply(&mut inner, m2);
+                        cx.label(&format!("nested_mut:{}", format!("{:?}", m1).split('(').next().unwrap()));
+                    }
+                }
+                cx.nontrivial();
+                if hub.send {
+                    AHub::Send { chain: hub.chain.bytes(), inner }.encode()
+                } else {
+                    AHub::Receive { chain: hub.chain.bytes(), inner }.encode()
+                }
+            }
             Case::Raw { hex } => {
                 cx.nontrivial();
                 hex::decode(hex).map_err(|e| format!("bad hex in case: {}", e))?
@@ -496,5 +524,10 @@ pub fn seed_inputs() -> Vec<Vec<u8>> {
         }
     }
     out.push(hub_encode(&Hub { send: false, chain: Text::Utf8("".into()), inner: inners[0].clone() }));
+    // well-formed envelopes around inner blobs that are not messages
+    for n in [0usize, 1, 31, 32, 33, 64] {
+        out.push(AHub::Receive { chain: b"ethereum".to_vec(), inner: vec![0u8; n] }.encode());
+        out.push(AHub::Send { chain: b"ethereum".to_vec(), inner: vec![0xffu8; n] }.encode());
+    }
     out
 }
